@@ -64,7 +64,7 @@ def gen_noisy_case(tape: Tape, stub: bool) -> dict:
     if step_kind == "tiny":
         # dt below the 1 ns root tolerance; pulser durations are integers, so T = nsteps*dt must be >= 1
         dt = tape.choice([0.3, 0.5, 0.9], "dt")
-        T = max(1, math.ceil(nsteps * dt))
+        T = max(2, math.ceil(nsteps * dt))
     elif step_kind == "short":
         dt = tape.choice([1.0, 1.5, 2.0, 3.0], "dt")
         T = max(2, math.ceil(nsteps * dt))
@@ -333,6 +333,10 @@ def one_run(tape: Tape, stub: bool) -> dict:
             V.append({"clause": "C18.I7-no-termination", "site": "progress", "msg": f"run did not finish within the liveness budget: {e} ({desc})"})
             return _pack(V, desc, probes, world, case, None, stub)
         finished = out.error is None
+        if out.error is not None and out.progress_calls == 0:
+            # died before the first unit of work: not a statement about jump stepping (C14/C21 judge run() failures)
+            desc["skipped"] = f"setup-raised:{out.error_site}"
+            return _pack(V, desc, probes, world, case, None, stub)
         if out.error is not None:
             V.append({"clause": "C18.run-raised", "site": out.error_site or "?", "msg": f"the noisy run raised {out.error!r} ({desc})"})
         tv, stats = check_trace(trace, out.progress_calls, sweep_len, finished)
